@@ -118,7 +118,7 @@ def _task(item):
           key = "serving_default" if si == 0 else "sig%d" % si
           data = [{"x%d" % i: np.abs(rng.normal(size=info["shapes"][si][t])).astype(np.float32) + 0.05 for i, t in enumerate(sub["gins"])}
                   for _ in range(2)]
-          cal = q.calibrate(data, signature_key=key, previous_calibration_result=cal or None)
+          cal = q.calibrate(common.as_dataset(data, seed + si + len(rec)), signature_key=key, previous_calibration_result=cal or None)
       q.quantize(cal)
       out["res"][rec] = "returned"
     except Exception as e:  # pylint: disable=broad-except
